@@ -727,7 +727,9 @@ def compare_bindings(cmpn, presult, cls, model):
             a.key, sorted(pattrs), sorted(cattrs)), a, b))
 
 
-def compare_class(cls, ctx):
+def compare_class(cls, ctx, strip_header=None):
+    """``strip_header`` = (number of leading parser elements, byte width of the leading composer integers) of a header a
+    dedicated rule decides: both are left out of the element-wise comparison"""
     cmpn = Comparison(cls)
     pc = ctx.canon(cls, 'parse')
     cc = ctx.canon(cls, 'compose')
@@ -736,7 +738,17 @@ def compare_class(cls, ctx):
         return cmpn
     cmpn.pcanon, cmpn.ccanon = pc, cc
     m = Matcher(ctx, cmpn)
-    m.seq(pc.elements, cc.elements, cls.name)
+    pe, ce = list(pc.elements), list(cc.elements)
+    if strip_header is not None:
+        n, width = strip_header
+        pe = pe[n:]
+        w = 0
+        while ce and ce[0].kind == 'u' and w < width:
+            w += ce[0].w
+            ce = ce[1:]
+        if w != width:
+            cmpn.diffs.append(Diff('shape', '%s: composer does not start with a %d byte header' % (cls.name, width), None, None))
+    m.seq(pe, ce, cls.name)
     compare_links(cmpn, pc, cc, ctx)
     compare_bindings(cmpn, ctx.layout(cls, 'parse').result, cls, ctx.model)
     return cmpn
